@@ -156,6 +156,58 @@ def replay_path(r, g, path, roots, names):
         rp.w.close()
 
 
+def group_first_message(r, roots):
+    """The first message from a contact's NEW identity may be a group message (the key distribution travels as a first message, the text
+    under the sender key).  With automatic trust the new key replaces the pin and the text is shown; without, the text is not shown and the
+    pin stays."""
+    from yowsup.layers.protocol_messages.protocolentities import TextMessageProtocolEntity
+    from yowsup.layers.protocol_messages.protocolentities.attributes.attributes_message_meta import MessageMetaAttributes
+    for auto in (True, False):
+        r.case(("group-first-message", auto))
+        r.cov["traces_validated_against_impl"] += 1
+        try:
+            w = e2e.World(roots, 2, autotrust=[auto, False], group=True)
+        except Exception as ex:
+            r.violation("exception:boot:%s" % type(ex).__name__, "the accounts cannot log in: %r" % (ex,), {})
+            continue
+        n = {"k": 0}
+
+        def send(s, dest):
+            n["k"] += 1
+            mid = "g%d" % n["k"]
+            to = w.gjid if dest == "G" else w.acc(dest).jid
+            w.do_submit(s, mid, dest, TextMessageProtocolEntity("text-" + mid, MessageMetaAttributes(id=mid, recipient=to)))
+            w.settle(cap=800)
+            return mid
+        try:
+            a, b = w.acc("a"), w.acc("b")
+            send("b", "a")                     # a pins b's first identity
+            old = a.pinned(b)
+            b.reinstall()
+            new_key = b.identity_pub()
+            mid = send("b", "G")               # b's new install talks to the group first
+            shown = any(x[0] == "a" and x[1] == mid for x in w.shown)
+            now = a.pinned(b)
+            if auto:
+                if now != [new_key]:
+                    r.violation("pin:not-updated:autotrust:group-first-message", "with automatic trust, a group message from a contact's new identity did not replace the remembered key", {"auto": auto})
+                elif not shown:
+                    r.violation("delivered:not:autotrust:group-first-message", "with automatic trust, the group message that presented the contact's new identity was not shown (messaging did not resume)", {"auto": auto})
+            else:
+                if now != old:
+                    r.violation("pin:replaced-silently:group-first-message", "without automatic trust, a group message from a contact's new identity changed the remembered key", {"auto": auto})
+                if shown:
+                    r.violation("delivered:despite-changed-identity:group-first-message", "without automatic trust, a group message from a contact's new identity was shown", {"auto": auto})
+        except e2e.Diverged:
+            r.violation("diverged:group-first-message", "the exchange does not settle (automatic trust %s)" % auto, {"auto": auto})
+        except core.MachineryError:
+            raise
+        except Exception as ex:
+            r.violation("exception:group-first-message:%s" % type(ex).__name__, "raised %r (automatic trust %s)" % (ex, auto), {"auto": auto})
+        finally:
+            w.close()
+
+
 def run(only=None):
     r = core.Run("C17", "model_checking")
     thorough = r.tier == "thorough"
@@ -194,6 +246,7 @@ def run(only=None):
                 if pi < 2:
                     r.sample({"history": [g.edges[i][1] for i in p]})
             r.notes["spec_transitions_replayed_%d" % len(names)] = len(covered)
+        group_first_message(r, roots)
         if len(r.notes.get("drift", [])) > 5 and not r.violations:
             raise core.MachineryError("Identity.tla does not describe the exchange: %s" % r.notes["drift"][:3])
     finally:
